@@ -517,6 +517,9 @@ class UTPM(Ring, RawAlgorithmsMixIn):
             raise NotImplementedError('should implement that')
 
         elif numpy.isscalar(rhs) or isinstance(rhs,numpy.ndarray):
+            if isinstance(rhs,numpy.ndarray) and numpy.may_share_memory(self.data, rhs):
+                # x *= x.data[0,0]: the first pass of the loop would change rhs itself
+                rhs = rhs.copy()
             for d in range(D):
                 for p in range(P):
                     self.data[d,p,...] *= rhs
